@@ -1,8 +1,10 @@
-"""Translator: re-extract literal tables / arithmetic expressions from /repo source *text* (ast, no
-import) and regenerate lean/FcGen/Tables.lean.  Theorems over these tables are re-checked by
-`lake build` against what the code says now."""
+"""Translator: re-extract literal tables / expressions / function bodies from /repo source *text* (ast, no import)
+and regenerate lean/FcGen/Tables.lean.  Theorems over these declarations are re-checked by `lake build` against what
+the code says now.  The rendering of each extractor on the pinned tree is frozen under lean/FcGen/lastgood/ (committed;
+`harness/freeze_tables.py`): when an extractor fails on a changed source, or the model no longer builds with a changed
+rendering, the frozen rendering is used so that the driver still builds for every OTHER property, and the properties that
+own the extractor count as 'proof obligation broken'."""
 from __future__ import annotations
-import ast
 import os
 
 from .leanproc import LEAN_DIR
@@ -14,30 +16,27 @@ def _src(rel):
     return open(os.path.join(REPO, rel), encoding="utf-8").read()
 
 
-def _lean_str(s: str) -> str:
-    return '"' + s.replace("\\", "\\\\").replace('"', '\\"') + '"'
-
-
-def extract() -> dict:
-    """returns a dict of extracted facts; extended by the clusters that need them"""
+def regenerate(use_lastgood=()) -> dict:
+    """write Tables.lean if (and only if) its content changed; returns the per-module status dict"""
     from . import tables_extract
-    return tables_extract.extract_all(_src)
-
-
-def render(facts: dict) -> str:
-    from . import tables_extract
-    return tables_extract.render(facts)
-
-
-def regenerate() -> bool:
-    """write Tables.lean if (and only if) its content changed; returns True when rewritten"""
-    text = render(extract())
+    text, status = tables_extract.render_all(_src, use_lastgood=use_lastgood)
     path = os.path.join(LEAN_DIR, "FcGen", "Tables.lean")
     old = open(path, encoding="utf-8").read() if os.path.exists(path) else None
-    if old == text:
-        return False
-    tmp = path + f".{os.getpid()}.tmp"
-    with open(tmp, "w", encoding="utf-8") as fh:
-        fh.write(text)
-    os.replace(tmp, path)
-    return True
+    if old != text:
+        tmp = path + f".{os.getpid()}.tmp"
+        with open(tmp, "w", encoding="utf-8") as fh:
+            fh.write(text)
+        os.replace(tmp, path)
+    return status
+
+
+def broken_owners(status: dict, names) -> set:
+    """properties whose obligations are broken because the given extractor modules are broken (None = all)"""
+    from . import tables_extract
+    out = set()
+    for n in names:
+        o = tables_extract.owners(n)
+        if o is None:
+            return {"*"}
+        out.update(o)
+    return out
